@@ -150,7 +150,7 @@ def explore(pool, base_req, alphabets, bound, on_exec, timeout=60.0, skip_cp=Non
     """alphabets: list (per deviation depth, 1-based) of dict kind -> answers.
     on_exec(req, obs, script) is called for every execution.  Returns stats."""
     frontier = [[]]
-    stats = {"executions": 0, "per_depth": [], "choice_points_max": 0, "alphabet_sizes": {}, "capped": False}
+    stats = {"executions": 0, "per_depth": [], "choice_points_max": 0, "alphabet_sizes": {}, "capped": False, "divergences": []}
     for depth in range(bound + 1):
         reqs = []
         for s in frontier:
@@ -163,9 +163,16 @@ def explore(pool, base_req, alphabets, bound, on_exec, timeout=60.0, skip_cp=Non
         nxt = []
         for s, r, o in zip(frontier, reqs, obs_list):
             bad = check_obs(o)
-            if bad is None:
-                check_applied(r, o)
             on_exec(r, o, s)
+            if bad is None:
+                try:
+                    check_applied(r, o)
+                except MachineryError as e:
+                    # the prefix did not replay identically: either uncontrolled nondeterminism of the machinery,
+                    # or a defect of the subject that only shows sometimes (the callers decide: a divergence
+                    # is a machinery error unless the run also found violations)
+                    stats["divergences"].append(str(e))
+                    continue
             if bad is not None or depth >= bound:
                 continue
             alpha = alphabets[min(depth, len(alphabets) - 1)]
